@@ -23,6 +23,17 @@ func verifWrapS3(c kv.S3Interface, o S3Options) kv.S3Interface {
 	return c
 }
 
+// VerifReopening, when set, is told that a table is about to be opened again
+// after a failed commit: the next VerifWrapS3 call is that open (verification
+// harness only).
+var VerifReopening func(*VirtualTable)
+
+func verifReopening(c *VirtualTable) {
+	if VerifReopening != nil {
+		VerifReopening(c)
+	}
+}
+
 // Export shims for the verification harness.
 
 func VerifMergeValues(i1, i2 crdt.Value) crdt.Value { return mergeValues(nil, i1, i2) }
